@@ -319,6 +319,13 @@ def inline_unknown(facts, baseline=None):
     fns = {f['dp']: f for f in facts['fns']}
     # identity = printed path (stable under reordering of impl blocks), not the numbered def path
     unknown = {dp for dp, f in fns.items() if f['kind'] != 'Closure' and f['path'] not in baseline and '{closure' not in dp}
+    # a new *walk step* (method of a cons-cell impl of a trait that also has a Null impl) is a unit of analysis of its
+    # own — the walk rules discover it from the impl — and not a helper to splice into its callers
+    null_traits = {imp['trait']['path'] for imp in facts['impls'] if imp.get('trait') and imp['self'].get('k') == 'adt' and imp['self']['path'].endswith('::Null')}
+    cons_impls = {imp['dp'] for imp in facts['impls'] if imp.get('trait') and imp['trait']['path'] in null_traits and imp['self'].get('k') == 'tuple'
+                  and len(imp['self'].get('e', [])) == 2 and imp['self']['e'][1].get('k') == 'param'}
+    null_impls = {imp['dp'] for imp in facts['impls'] if imp.get('trait') and imp['trait']['path'] in null_traits and imp['self'].get('k') == 'adt' and imp['self']['path'].endswith('::Null')}
+    unknown = {dp for dp in unknown if fns[dp].get('parent') not in cons_impls and fns[dp].get('parent') not in null_impls}
     if not unknown:
         return facts, []
     done = []
